@@ -212,7 +212,7 @@ _prop('C06',
                  'Table.transpose', 'Table.update_ids', 'Table.copy']),
              partial(rules_axis.rule_ax_fwd, which={'Table.sort'}),
              rules_table.rule_or_reindex, rules_effects.rule_ef_fresh],
-      minima={'OR-COPERM': 12, 'AX-CTOR': 12, 'AX-SHAPE': 1, 'AX-STORE': 1, 'AX-IDAPI': 1, 'AX-OWNER': 1, 'AX-MATOP': 1, 'AX-FWD': 1, 'OR-REINDEX': 6, 'EF-FRESH': 20},
+      minima={'AX-CTOR': 12, 'AX-SHAPE': 1, 'AX-STORE': 1, 'AX-IDAPI': 1, 'AX-OWNER': 1, 'AX-MATOP': 1, 'AX-FWD': 1, 'OR-REINDEX': 6, 'EF-FRESH': 20},
       rule_texts=ALL_TEXT, trusted=[SCIPY_TRUST],
       assumptions=['natsort order, scipy fancy indexing and injectivity of '
                    'user renamings are not decided'])
